@@ -12,7 +12,9 @@ Oracle
       coefficients and constants with imaginary parts, geometry and Arguments real).
         accepted  and some operand has a non-zero imaginary part (confirmed with 50 digits, no
                   conditioning flag)                                   -> violation (unsound inference)
-        accepted  -> S(out) == S(in) in real worlds (the Real(...) wrapping must not change the value)
+        accepted  -> S(out) == S(in) in real worlds (the Real(...) wrapping must not change the value), and the
+                  operands of the guarded nodes of the output have the same values as those of the input
+                  (decides where the whole value sits on a tie of the comparison and is therefore inconclusive)
         rejected (ComplexComparisonError) -> allowed; counted, separately when all operands were real
   (B) returned -> no Conj/Real/Imag/ComplexValue node is left and S(out) == S(in) in real worlds;
       an input that contains an Imag node or a ComplexValue literal and is NOT rejected -> violation.
@@ -74,14 +76,14 @@ ASSUMPTIONS = [
     "powers with a non-literal exponent are only exercised in child processes (the liveness probe), never in-process",
 ]
 BUDGET = {"quick": 45, "thorough": 400}
-NCASES = {"quick": 12000, "thorough": 150000}
+NCASES = {"quick": 12000, "thorough": 120000}
 CASE_TIMEOUT = 30.0
 EVAL_COUNTER = "cases"
 FLOORS = {
     "quick": {"sound_accepts": 800, "rejected_truly_complex": 640, "complex_value_held": 1100, "real_must_raise_raised": 800, "real_value_held": 800,
-              "operands_checked": 9000},
-    "thorough": {"sound_accepts": 10000, "rejected_truly_complex": 8000, "complex_value_held": 14000, "real_must_raise_raised": 10000,
-                 "real_value_held": 10000, "operands_checked": 110000},
+              "operands_checked": 9000, "guard_operands_held": 800},
+    "thorough": {"sound_accepts": 8000, "rejected_truly_complex": 7000, "complex_value_held": 11000, "real_must_raise_raised": 8500,
+                 "real_value_held": 7500, "operands_checked": 90000, "guard_operands_held": 8000},
 }
 COVER_FLOORS = {
     "quick": {"guards_soundly_accepted": ["LT", "GT", "LE", "GE", "MinValue", "MaxValue"], "hang_probe": ["done"]},
@@ -646,6 +648,65 @@ def judge_value(ctx, prefix, obj_in, obj_out, worlds):
     return v, bad
 
 
+class _NotClean(Exception):
+    pass
+
+
+def guard_signatures(obj, w, need_real):
+    """[(guard class, [operand value arrays])] of obj in world w; raises _NotClean when an operand cannot be evaluated cleanly."""
+    sigs = []
+    for g, side in guards_in(obj):
+        vals = []
+        for op in g.ufl_operands:
+            try:
+                r = S(op, w, CB, side=side)
+            except (Unsupported, Ambiguous, StructureMismatch, IllConditioned) + NUMERIC as ex:
+                raise _NotClean(type(ex).__name__)
+            arr = np.asarray(r.arr)
+            if r.flags or not np.all(np.isfinite(arr)):
+                raise _NotClean("flags")
+            if need_real and arr.size and float(np.max(np.abs(arr.imag))) > IM_ZERO * max(1.0, float(np.max(np.abs(arr)))):
+                raise _NotClean("complex operand for real data")
+            vals.append(arr)
+        sigs.append((type(g).__name__, vals))
+    return sigs
+
+
+def _close(a, b):
+    if a.shape != b.shape:
+        return False
+    if a.size == 0:
+        return True
+    return float(np.max(np.abs(a - b))) <= 1e-7 * max(1.0, float(np.max(np.abs(a))), float(np.max(np.abs(b))))
+
+
+def _covered(xs, ys):
+    """every guard of xs has a guard of the same class with the same operand values in ys."""
+    for nx, vx in xs:
+        if not any(nx == ny and len(vx) == len(vy) and all(_close(a, b) for a, b in zip(vx, vy)) for ny, vy in ys):
+            return (nx, vx)
+    return None
+
+
+def guard_operands_preserved(obj_in, obj_out, worlds):
+    """Per real world: are the operand values of the guarded nodes the same in output and input?  (the Real(...)
+    wrapping must not change them for real data).  Guards are matched as sets: the pass may merge equal nodes."""
+    verdicts = []
+    witness = None
+    for w in worlds:
+        try:
+            si = guard_signatures(obj_in, w, True)
+            so = guard_signatures(obj_out, w, False)
+        except _NotClean:
+            verdicts.append("inconclusive")
+            continue
+        miss = _covered(so, si) or _covered(si, so)
+        verdicts.append("agree" if miss is None else "disagree")
+        if miss is not None and witness is None:
+            witness = (miss[0], [complex(np.ravel(v)[0]) if v.size else None for v in miss[1]], si)
+    return verdicts, witness
+
+
 # ------------------------------------------------------------------------------- the two monitors
 
 
@@ -658,6 +719,7 @@ def monitor_complex(ctx, i, rng, cell, gdim, itype):
     args = [U.arg(rng.choice(["P1", "P2", "P1v"]), 0)] if is_form and rng.random() < 0.6 else []
     try:
         e, kinds = build_complex_input(rng, U, G, template, args)
+        e = as_ufl(e)
         obj = e
         if is_form:
             obj = as_form(rng, U, e, args)
@@ -759,6 +821,20 @@ def monitor_complex(ctx, i, rng, cell, gdim, itype):
             {"input": safe_str(obj, 1200), "output": safe_str(out, 1200), "culprit": safe_str(culprit, 400), "world": rworlds[0].describe(), **desc},
         )
         return
+    if guards:
+        gv, wit = guard_operands_preserved(obj, out, rworlds)
+        for x in gv:
+            ctx.count("guardops_world_" + x)
+        if gv.count("disagree") >= 2 and "agree" not in gv:
+            ctx.count("guard_operands_changed")
+            ctx.violation(
+                f"C23/complex/guard-operand-changed/{wit[0]}",
+                f"for real data the operands of a {wit[0]} in the output of do_comparison_check have other values ({wit[1]}) than those of any {wit[0]} in the input",
+                {"input": safe_str(obj, 1200), "output": safe_str(out, 1200), "world": rworlds[0].describe(), **desc},
+            )
+            return
+        if gv.count("agree") >= 2 and "disagree" not in gv:
+            ctx.count("guard_operands_held")
     if v == "held" and guards:
         ctx.add_distinct(("complex", "accepted", skeleton(integrands_of(obj)[0], 3), cell))
         ctx.sample({"mode": "complex", "outcome": "accepted", **desc, "guards": len(guards), "input": safe_str(obj, 240), "output": safe_str(out, 240)}, limit=2)
@@ -774,7 +850,7 @@ def monitor_real(ctx, i, rng, cell, gdim, itype):
     template = REAL_TEMPLATES[(i // 2) % len(REAL_TEMPLATES)] if rng.random() < 0.8 else rng.choice(REAL_TEMPLATES)
     is_form = rng.random() < 0.25
     try:
-        e = build_real_input(rng, U, G, template)
+        e = as_ufl(build_real_input(rng, U, G, template))
         obj = e
         if is_form:
             obj = as_form(rng, U, e, [U.arg(rng.choice(["P1", "P2", "P1v"]), 0)] if rng.random() < 0.6 else [])
